@@ -396,16 +396,30 @@ def _check_info_insert(prog, chk, X2, cls, short, ver, e):
             # that entered the helper, frame by frame
             cur_func = e.func
             frames = list(getattr(e, 'frames', ()) or ())
-            while ref.get('kind') == 'ParmVarDecl' and frames:
-                idx = [i for i, p_ in enumerate(cur_func.params) if p_.get('id') == ref.get('id')]
-                caller, callnode = frames.pop()
-                args = children(callnode)[1:]
-                if not idx or idx[0] >= len(args):
-                    break
-                base = strip(args[idx[0]], explicit=True)
-                ref = base.get('referencedDecl') or {}
-                cur_func = caller
-                tu = caller.tu
+            hops = 0
+            while hops < 12:
+                hops += 1
+                if ref.get('kind') == 'ParmVarDecl' and frames:
+                    idx = [i for i, p_ in enumerate(cur_func.params) if p_.get('id') == ref.get('id')]
+                    caller, callnode = frames.pop()
+                    args = children(callnode)[1:]
+                    if not idx or idx[0] >= len(args):
+                        break
+                    base = strip(args[idx[0]], explicit=True)
+                    ref = base.get('referencedDecl') or {}
+                    cur_func = caller
+                    tu = caller.tu
+                    continue
+                # a local of the function that is initialised once and never assigned (a reference alias or a
+                # const copy: `const semantic_version& version = schema_version;`) stands for its initialiser
+                if ref.get('kind') == 'VarDecl' and ref.get('id') in program.single_assignment_locals(cur_func.node):
+                    init = program.single_assignment_locals(cur_func.node)[ref.get('id')]
+                    base = strip(init, explicit=True)
+                    while base.get('kind') in ('CXXConstructExpr', 'InitListExpr') and len(children(base)) == 1:
+                        base = strip(children(base)[0], explicit=True)
+                    ref = base.get('referencedDecl') or {}
+                    continue
+                break
             qn = tu.qn.get(ref.get('id'))
             if qn == cls + '::schema_version':
                 okb = True
